@@ -201,6 +201,22 @@ def float_sym_axioms():
             z3.ForAll([a, b], z3.Implies(vlt(a, b), vabs(vsub(a, b)) == vsub(b, a)), patterns=[vabs(vsub(a, b))])]
 
 
+def float_gap_axioms():
+    """IEEE facts (non-NaN doubles, round-to-nearest) behind "a value further away has a larger point distance":
+    rounded subtraction is monotone in its first and antitone in its second argument, x - y is not negative when y <= x,
+    squaring is monotone on non-negative values, |v| == v for v >= 0 and |a - b| == |b - a|, (a-b)^2 == (b-a)^2."""
+    a, b, cc = z3.Consts('fg_a fg_b fg_c', Val)
+    le = lambda p, q: z3.Not(vlt(q, p))       # noqa: E731
+    return float_sym_axioms() + [
+        z3.ForAll([a, b, cc], z3.Implies(le(a, b), le(vsub(cc, b), vsub(cc, a))), patterns=[z3.MultiPattern(vsub(cc, b), vsub(cc, a))]),
+        z3.ForAll([a, b, cc], z3.Implies(le(a, b), le(vsub(a, cc), vsub(b, cc))), patterns=[z3.MultiPattern(vsub(a, cc), vsub(b, cc))]),
+        z3.ForAll([a, b], z3.Implies(le(b, a), le(vzero, vsub(a, b))), patterns=[vsub(a, b)]),
+        z3.ForAll([a, b], z3.Implies(z3.And(le(vzero, a), le(a, b)), le(vmul(a, a), vmul(b, b))), patterns=[z3.MultiPattern(vmul(a, a), vmul(b, b))]),
+        z3.ForAll([a], z3.Implies(le(vzero, a), vabs(a) == a), patterns=[vabs(a)]),
+        z3.ForAll([a, b], vabs(vsub(a, b)) == vabs(vsub(b, a)), patterns=[vabs(vsub(a, b))]),
+    ]
+
+
 def _lbsum(ex, st, s1, l1, s2, l2, w, metric, k):
     a1, o1 = series_parts(ex, st, s1)
     a2, o2 = series_parts(ex, st, s2)
